@@ -284,6 +284,18 @@ func e2Prepare(run *vlib.Run, prefix string, cases []schemaCase, out e2.OutputSp
 			note(run, "cog refused a %s schema: %v", c.Format, firstLine(g.genErr.Error()))
 		default:
 			p.files[i] = g.files
+			if out.Converters && out.Go != nil {
+				// converters call cog.Dump, which no jenny emits (listed under C02)
+				hasDump := false
+				for path, content := range g.files {
+					if strings.HasSuffix(path, ".go") && strings.Contains(string(content), "func Dump(") {
+						hasDump = true
+					}
+				}
+				if !hasDump {
+					g.files[id+"/cog/zz_dump_overlay.go"] = []byte(e2.DumpRuntime)
+				}
+			}
 			if err := batch.Add(id, g.files); err != nil {
 				p.Close()
 				return nil, err
